@@ -39,8 +39,8 @@ impl<const N: u32> PxE2<{ N }> {
 
         let sign_a = Self::sign_ui(ui_a);
         let sign_b = Self::sign_ui(ui_b);
-        let sign_c = Self::sign_ui(ui_c); //^ (op == softposit_mulAdd_subC);
-        let mut sign_z = sign_a ^ sign_b; // ^ (op == softposit_mulAdd_subProd);
+        let sign_c = Self::sign_ui(ui_c);
+        let mut sign_z = sign_a ^ sign_b ^ matches!(op, MulAddType::SubProd);
 
         if sign_a {
             ui_a = ui_a.wrapping_neg();
@@ -51,6 +51,7 @@ impl<const N: u32> PxE2<{ N }> {
         if sign_c {
             ui_c = ui_c.wrapping_neg();
         }
+        let sign_c = sign_c ^ matches!(op, MulAddType::SubC);
 
         if N == 2 {
             let reg_sa = Self::sign_reg_ui(ui_a);
